@@ -56,7 +56,8 @@ PROPS = {
     'C01': {'ties': ['tie_ladder', 'tie_docLadder', 'tie_readmeLadder', 'tie_tokenTypes'],
             'digests': pa(PARSER_LADDER + PARSER_PRIM + ['Parser.IfStatement', 'Parser.statement']), 'digest_groups': ['parserDigests'],
             'campaign': F.c01,
-            'partial': ['"adding parentheses never changes what a program prints" is proved at tree level (Grouping is transparent to the evaluator) and tested end to end']},
+            'partial': ['completeness / uniqueness / parenthesised round trip are proved for expressions; for statements the proved part is soundness (C08) plus the dangling-else theorem, the round trip is enumerated',
+                        '"adding parentheses never changes what a program prints" is proved at tree level (Grouping is transparent to the evaluator) and tested end to end']},
     'C02': {'ties': ['tie_tokenTypes'], 'digests': it(*OPS) + ev('Binary', 'Unary'), 'campaign': E.c02,
             'partial': ['IEEE-754 exactness rests on the definitional F64 model tied to the host by correspondence', PLATFORM_NOTE]},
     'C03': {'ties': [], 'digests': en(ENV_ALL) + ev('BlockStmt', 'ForStmt', 'VarStmt', 'VarListStmt', 'AssignmentStmt', 'Identifier', 'FunctionStmt') +
@@ -87,8 +88,10 @@ PROPS = {
             'campaign': E.c14},
     'C15': {'ties': [], 'digests': ev('PrintStatement', 'ExpressionStatement') + it('stringify', 'stringifyOperand', 'handleAddition', 'Function.String'), 'campaign': E.c15,
             'partial': ['NFC is x/text\'s (tables extracted, algorithm modelled); shortest-digit minimality is strconv\'s (tied by correspondence)']},
-    'C16': {'ties': [], 'digests': lx(['Scanner.stringLiteral', 'Scanner.AddToken', 'Scanner.number']) + it('handleBitwise', 'evaluateUnary', 'NativeLenFn.Call', 'NativeRoundFn.Call', 'NativeAbsFn.Call', 'NativeInputFn.Call', 'isEqual', 'isTruthy', 'toNumber', 'toInt64', 'stringifyOperand', 'stringify'),
-            'campaign': E.c16},
+    'C16': {'ties': [], 'digests': lx(['Scanner.stringLiteral', 'Scanner.AddToken', 'Scanner.number']) + it(*OPS) + it('stringify', 'sortedKeys') + nat(*NATIVES) +
+            ev('Literal', 'ArrayAccess', 'ArrayAssignment', 'PropertyAccess', 'PropertyAssignment', 'Binary', 'Unary', 'Logical', 'IfStmt', 'While', 'ForStmt', 'Call', 'PrintStatement',
+               'ExpressionStatement', 'ArrayLiteral', 'ObjectLiteral', 'VarStmt', 'AssignmentStmt', 'Return', 'Grouping'),
+            'digest_groups': ['interpreterDigests', 'evalCases'], 'campaign': E.c16},
     'C17': {'ties': ['tie_natives', 'tie_arities'], 'digests': nat(*NATIVES) + it('NewInterpreter', 'toNumber') + ev('Call'), 'campaign': E.c17,
             'partial': [PLATFORM_NOTE + '; accuracy of the platform math library is neither modelled nor claimed', 'clock is checked against the wall clock only']},
     'C18': {'ties': ['tie_keywords', 'tie_twoOps', 'tie_digitMap', 'tie_digitRanges', 'tie_blanks', 'tie_otherCases'], 'digests': lx(LEXER_ALL) + en(ENV_ALL) + ev('Grouping') + pa(['Parser.primary', 'Parser.varDeclaration']),
